@@ -231,7 +231,7 @@ def witness_runs(ctx, path):
             if not f.endswith(".json"):
                 continue
             w = json.load(open(os.path.join(wdir, f)))
-            beh = script_to_behaviour(ctx, w["script"], f[:-5], w.get("cfg", "shard-script.cfg"))
+            beh = script_to_behaviour(ctx, w["script"], f[:-5], w.get("script_cfg", "shard-script.cfg"))
             if len(beh) < len(w["script"]):
                 ctx.log("witness %s: the specification follows %d of %d steps" % (f, len(beh), len(w["script"])))
             if beh:
@@ -288,7 +288,7 @@ def witness_continuations(ctx, path, per_witness):
             if not f.endswith(".json"):
                 continue
             w = json.load(open(os.path.join(wdir, f)))
-            if "cfg" in w:
+            if "script_cfg" in w:
                 continue   # witnesses of another configuration (e.g. 5 nodes) are replayed as they are
             depth = len(w["script"]) + 22
             cfg = re.sub(r"(?m)^(\s*MaxDepth\s*=\s*).*$", r"\g<1>%d" % depth, base)
